@@ -61,8 +61,8 @@ func (d DocSpec) Clone() DocSpec {
 }
 
 var (
-	ElemNames = []string{"a", "b", "c", "a", "b", "a-1", "x:a", "d", "y:b"}
-	AttrNames = []string{"id", "k", "id", "x:k", "n", "xml:lang", "a", "b"}
+	ElemNames = []string{"a", "b", "c", "a", "b", "a-1", "x:a", "d", "y:b", "b.c", "or", "and"}
+	AttrNames = []string{"id", "k", "id", "x:k", "n", "xml:lang", "a", "b", "or"}
 	Values    = []string{"1", "2", "21", "3", "3.5", "-1", "0", "abc", "ab", "b", "a", "", " ", " a  b ", "NaN", "1e2", "10", "aXb", "Abc", "é", "中a", "-0", ".5", "+1", " 7 ", "7", "\n 1\n", "2 ", "0.1", "0.2", "0.7"}
 	NSURLs    = []string{"", "", "urn:x", "urn:y"}
 )
@@ -121,12 +121,17 @@ func GenWideDoc(r *Rng) DocSpec {
 // concatenation or lossy hashing.
 func GenTableDoc(r *Rng) DocSpec {
 	vals := []string{"", "a", "b", "ab"}
+	var collide [][2]string // two (k, n) pairs that glue into the same string around a separator
 	switch r.Intn(4) {
 	case 0:
 		vals = []string{"1", "12", "2", ""}
 	case 1, 2:
-		// values containing the characters keys are usually glued together with
-		vals = [][]string{{"x|y", "z", "x", "y|z"}, {"a-1", "1", "a", "-11"}, {"a,b", "c", "a", "b,c"}, {"p:q", "r", "p", "q:r"}}[r.Intn(4)]
+		// values containing the characters keys are usually glued together with:
+		// (x S y, z) and (x, y S z) collide under k + S + n
+		sep := r.Pick([]string{"|", "/", ":", ",", "-", ";", "=", "#", " ", "\x00", "_"})
+		x, y, z := r.Pick([]string{"a", "1"}), r.Pick([]string{"b", "2"}), r.Pick([]string{"c", "3", "ab"})
+		vals = []string{x + sep + y, z, x, y + sep + z}
+		collide = [][2]string{{x + sep + y, z}, {x, y + sep + z}}
 	}
 	names := []string{"k", "n", "id"}[:r.Range(2, 3)]
 	row := r.Pick([]string{"a", "b", "c"})
@@ -140,6 +145,18 @@ func GenTableDoc(r *Rng) DocSpec {
 			e.C = append(e.C, &NodeSpec{K: "t", V: []string{"abab", "aabb", "ba", "a1b2", "121"}[r.Intn(5)]})
 		}
 		top.C = append(top.C, e)
+	}
+	if collide != nil && r.Chance(3, 4) {
+		// two rows whose first two attributes are a colliding pair, in either order of columns
+		i, j := r.Intn(len(top.C)), r.Intn(len(top.C))
+		a, b := 0, 1
+		if r.Chance(1, 3) {
+			a, b = 1, 0
+		}
+		top.C[i].A[a][1], top.C[i].A[b][1] = collide[0][0], collide[0][1]
+		if j != i {
+			top.C[j].A[a][1], top.C[j].A[b][1] = collide[1][0], collide[1][1]
+		}
 	}
 	return DocSpec{C: []*NodeSpec{top}}
 }
